@@ -5,15 +5,19 @@
   transitions whose wall-clock set-backs do not overlap) and ALL instants before the last recorded
   transition — or any instant when the zone's `ttinfo_std` is the last transition's type
   (`LastStd`; the code answers `ttinfo_std` from the last transition on).
-  Fixed zones: all offsets, all instants.  Range zones (`tzrangebase`): `roundtrip_range_partial`.
+  Fixed zones: all offsets, all instants.  Range zones (`tzrangebase`): `roundtrip_range` (both
+  hemispheres, exact condition on the year lookups), `roundtrip_range_norule`.  `_tzinfo`
+  machinery (tzlocal, tzical): `roundtrip_generic` over abstract utcoffset/dst with a two-offset
+  cycle structure, instantiated for C17's iCalendar model in `roundtrip_tzical_cycle`.
 
   Full-strength statement that is NOT true of the code and therefore not proved:
     ∀ z : RangeZone, ∀ t, roundtrip z t
   excluded classes (known findings, shown failing on the implementation by the check):
-    D-C05r  saving < 0;   D-C04y  wall-clock year ≠ UTC year at a rule boundary.
+    D-C05r  saving < 0;   D-C04y  the wall-clock year's rule pair differs from the UTC year's.
 -/
 import DateutilVerif.Proofs.ZonesBuild
 import DateutilVerif.Proofs.RangeZone
+import DateutilVerif.Proofs.GenericICal
 
 namespace C04
 open TZ Spec
@@ -143,6 +147,48 @@ theorem roundtrip_range_norule (z : RangeZone) (t : Int)
   · unfold RangeZone.fromutc; simp only [htr, h0, bind, Except.bind, pure, Except.pure]
   · rw [h1]; congr 1; show z.stdOff = t + z.stdOff - t; omega
   · unfold RangeZone.toUtc; rw [h1]; show Except.ok _ = _; congr 1; show t + z.stdOff - z.stdOff = t; omega
+
+/-! ### `_tzinfo` machinery (tzlocal, tzical) -/
+
+/-- **roundtrip_generic.** `_tzinfo._fromutc/_fold_status/is_ambiguous` over abstract
+    `utcoffset/dst`: if these follow the two-offset interval semantics of a cycle on a wall window
+    (`GenericZone.CycleSem`: standard offset everywhere, daylight below `off` and, for fold=0, on the
+    repeated interval) and `is_ambiguous` is the repeated interval, then every instant whose
+    standard-time reading and its daylight reading lie in the window round-trips; fold=1 is set
+    exactly on the standard side of the repeated interval. -/
+theorem roundtrip_generic (g : GenericZone) (stdOff saving off lo hi t : Int) (hs : 0 < saving)
+    (hsem : GenericZone.CycleSem g stdOff saving off lo hi)
+    (hamb : ∀ w, lo ≤ w → w < hi → g.isAmbiguous w = (decide (off ≤ w) && decide (w < off + saving)))
+    (h0 : g.utcoffset ⟨t, false⟩ - g.dst ⟨t, false⟩ = stdOff)
+    (hx1 : lo ≤ t + stdOff) (hx2 : t + stdOff + saving < hi) :
+    g.utcoffset (g.fromutc t) = (g.fromutc t).wall - t ∧ g.toUtc (g.fromutc t) = t ∧
+    (g.fromutc t).wall = (if t + stdOff < off then t + stdOff + saving else t + stdOff) ∧
+    (g.fromutc t).fold = (decide (off ≤ t + stdOff) && decide (t + stdOff < off + saving)) :=
+  GenericZone.roundtrip g stdOff saving off lo hi t hs hsem hamb h0 hx1 hx2
+
+/-- for zones using the generic `is_ambiguous` (tzical) the ambiguity hypothesis follows -/
+theorem generic_ambiguous (g : GenericZone) (stdOff saving off lo hi : Int) (hs : 0 < saving)
+    (hno : g.ambiguousOverride = none) (hsem : GenericZone.CycleSem g stdOff saving off lo hi)
+    (w : Int) (h1 : lo ≤ w) (h2 : w < hi) :
+    g.isAmbiguous w = (decide (off ≤ w) && decide (w < off + saving)) :=
+  GenericZone.isAmbiguous_of_sem g stdOff saving off lo hi hs hno hsem w h1 h2
+
+/-- **roundtrip_tzical_cycle.** The iCalendar zone model of C17 (`ICal.generic`, STANDARD + DAYLIGHT
+    component) inside a cycle `[on, nextOn)`: its `fromutc` (the same `_tzinfo` machinery,
+    `ICal.Generic.fromutc_eq`) reports `utcoffset = wall − utc` and adds the daylight offset exactly
+    when the instant's standard reading is below `off`. -/
+theorem roundtrip_tzical_cycle (S D : List Int) (stdOff dstOff on off nextOn t : Int)
+    (hsav : stdOff < dstOff) (h1 : on < off) (h2 : off + (dstOff - stdOff) ≤ nextOn)
+    (H1 : ∀ x, on ≤ x → x < nextOn → ICal.lastLE D x = some on)
+    (H2 : ∀ x, on ≤ x → x < off + (dstOff - stdOff) → ∀ p, ICal.lastLE S x = some p → p < on)
+    (H3 : ∀ x, off + (dstOff - stdOff) ≤ x → x < nextOn + (dstOff - stdOff) →
+      ICal.lastLE S x = some (off + (dstOff - stdOff)))
+    (hx1 : on ≤ t + stdOff) (hx2 : t + dstOff < nextOn) :
+    let g := (ICal.generic [{ tzoffsetfrom := dstOff, tzoffsetto := stdOff, isdst := false, onsets := S : ICal.ZComp },
+                            { tzoffsetfrom := stdOff, tzoffsetto := dstOff, isdst := true, onsets := D : ICal.ZComp }])
+    g.utcoffset (g.fromutc t).1 (g.fromutc t).2 = (g.fromutc t).1 - t ∧
+    (g.fromutc t).1 = (if t + stdOff < off then t + dstOff else t + stdOff) :=
+  ICal.roundtrip_two_comp S D stdOff dstOff on off nextOn t hsav h1 h2 H1 H2 H3 hx1 hx2
 
 /-! non-vacuity -/
 def exR : Raw := { trans := [(1000000, 1), (2000000, 0), (3000000, 1)],
